@@ -8,7 +8,7 @@ undefined marker; Each visits items() once.  Map behaviour over histories is NOT
 """
 import ast
 
-from ..model import AnalysisError, src, callee_name, dotted, walk_local, calls_in, FUNC, names_in
+from ..model import AnalysisError, src, callee_name, dotted, walk_local, calls_in, FUNC, names_in, pos
 from ..flow import atoms_at, path_conditions, split_conj, always_exits
 from ..callgraph import CallGraph
 from .. import fresh
@@ -97,9 +97,9 @@ def _excludes_dict(node, p, fnode):
 
 def _unchanged_before(fnode, name, use):
     """no store to `name` can reach `use` (stores inside blocks that always leave the function are ignored)"""
-    upos = (use.lineno, use.col_offset)
+    upos = pos(use)
     for n in walk_local(fnode):
-        if isinstance(n, ast.Name) and n.id == name and isinstance(n.ctx, (ast.Store, ast.Del)) and (n.lineno, n.col_offset) < upos:
+        if isinstance(n, ast.Name) and n.id == name and isinstance(n.ctx, (ast.Store, ast.Del)) and pos(n) < upos:
             st = n
             while not isinstance(st, ast.stmt):
                 st = st._parent
@@ -246,7 +246,7 @@ def check(ctx):
     for f in (join, drop, find, each):
         for ifn, p in _dict_tests(f.node, set(f.params())):
             ctx.instance("C10-R4", f.fq, f"dict arm on {p}")
-            pre = [r for r in walk_local(f.node) if isinstance(r, ast.Return) and (r.lineno, r.col_offset) < (ifn.lineno, ifn.col_offset)]
+            pre = [r for r in walk_local(f.node) if isinstance(r, ast.Return) and pos(r) < pos(ifn)]
             for r in pre:
                 # a return inside another dictionary arm of the same verb is itself a dictionary operation
                 in_dict_arm = any(pol and isinstance(e, ast.Call) and e.args and (callee_name(e) == "is_dict" or (callee_name(e) == "isinstance" and len(e.args) == 2 and src(e.args[1]) == "dict"))
